@@ -482,7 +482,7 @@ def formula_purity(chk, P):
            ep.equal(vals[0], vals[3])[0], site=site, found=vals[3], expect=vals[0], key="C12.O4|history-independent")
     tf, tg = M.symbol_table_of(f), M.symbol_table_of(g)
     chk.ob("C12.O4", "each form has its own symbol table and expression", tf is not tg and M.expression_of(f) is not M.expression_of(g),
-           site=cx.lookup("__init__").site(), found="shared" if tf is tg else "separate", expect="separate", key="C12.O4|per-instance")
+           site=cx.site_of("__init__"), found="shared" if tf is tg else "separate", expect="separate", key="C12.O4|per-instance")
 
 
 def caches(chk, P):
